@@ -9,6 +9,7 @@ from pypika.terms import (
     Field,
     Function,
     Index,
+    LiteralValue,
     Node,
     Rollup,
     Star,
@@ -574,11 +575,15 @@ class _SetOperation(Selectable, Term):
     @builder
     def orderby(self, *fields: Field, **kwargs: Any) -> "_SetOperation":
         for field in fields:
-            field = (
-                Field(field, table=self.base_query._from[0])
-                if isinstance(field, str)
-                else self.base_query.wrap_constant(field)
-            )
+            if isinstance(field, int) and not isinstance(field, bool):
+                # a position in the select list, not a data value: never collected as a bound parameter
+                field = LiteralValue(str(field))
+            else:
+                field = (
+                    Field(field, table=self.base_query._from[0])
+                    if isinstance(field, str)
+                    else self.base_query.wrap_constant(field)
+                )
 
             self._orderbys = self._orderbys + [(field, kwargs.get("order"))]
 
@@ -990,6 +995,9 @@ class QueryBuilder(Selectable, Term):
         for term in terms:
             if isinstance(term, str):
                 term = Field(term, table=self._from[0])
+            elif isinstance(term, int) and not isinstance(term, bool):
+                # a position in the select list, not a data value: never collected as a bound parameter
+                term = LiteralValue(str(term))
             elif isinstance(term, int):
                 term = Field(str(term), table=self._from[0]).wrap_constant(term)
 
@@ -1028,7 +1036,11 @@ class QueryBuilder(Selectable, Term):
     @builder
     def orderby(self, *fields: Any, **kwargs: Any) -> "QueryBuilder":
         for field in fields:
-            field = Field(field, table=self._from[0]) if isinstance(field, str) else self.wrap_constant(field)
+            if isinstance(field, int) and not isinstance(field, bool):
+                # a position in the select list, not a data value: never collected as a bound parameter
+                field = LiteralValue(str(field))
+            else:
+                field = Field(field, table=self._from[0]) if isinstance(field, str) else self.wrap_constant(field)
 
             self._orderbys.append((field, kwargs.get("order")))
 
